@@ -1,9 +1,9 @@
-CONSTANTS Alphabet <- AFull
- MaxLen = 5
+CONSTANTS Families = {"free5", "full4", "nop4", "db4", "incl4"}
+ Family <- FullFamily
  MaxSects = 2
  MaxDepth = 2
  Fixed = {}
 INIT Init
 NEXT Next
-INVARIANTS InvAgrees InvDevsNamed InvLaterPassesAlike InvTable
+INVARIANTS InvAll Dump
 CHECK_DEADLOCK FALSE
